@@ -60,9 +60,9 @@ func (f *c10Flags) String(n, d, _ string) *string {
 	return &d
 }
 func (f *c10Flags) StringList(n, d, _ string) *[]*string { return &[]*string{} }
-func (f *c10Flags) ExtraUsage() string                  { return strings.Join(f.extra, "\n") }
-func (f *c10Flags) AddExtraUsage(eu string)             { f.extra = append(f.extra, eu) }
-func (f *c10Flags) Parse(func()) []string               { return []string{"c10-profile"} }
+func (f *c10Flags) ExtraUsage() string                   { return strings.Join(f.extra, "\n") }
+func (f *c10Flags) AddExtraUsage(eu string)              { f.extra = append(f.extra, eu) }
+func (f *c10Flags) Parse(func()) []string                { return []string{"c10-profile"} }
 
 type c10Fetcher struct{ p *profile.Profile }
 
@@ -85,9 +85,9 @@ func (u *c10UI) Print(a ...interface{}) {
 	u.log = append(u.log, fmt.Sprint(a...))
 	u.mu.Unlock()
 }
-func (u *c10UI) PrintErr(a ...interface{})          { u.Print(a...) }
-func (u *c10UI) IsTerminal() bool                   { return false }
-func (u *c10UI) WantBrowser() bool                  { return false }
+func (u *c10UI) PrintErr(a ...interface{})           { u.Print(a...) }
+func (u *c10UI) IsTerminal() bool                    { return false }
+func (u *c10UI) WantBrowser() bool                   { return false }
 func (u *c10UI) SetAutoComplete(func(string) string) {}
 
 // a deterministic fake object tool: every function of the profile occupies 0x100 bytes of its mapping
@@ -121,11 +121,13 @@ func (o c10ObjTool) Disasm(file string, start, end uint64, intel bool) ([]plugin
 	return out, nil
 }
 
-func (f c10ObjFile) Name() string                                 { return f.name }
-func (f c10ObjFile) ObjAddr(addr uint64) (uint64, error)          { return addr, nil }
-func (f c10ObjFile) BuildID() string                              { return "" }
-func (f c10ObjFile) SourceLine(uint64) ([]plugin.Frame, error)    { return nil, fmt.Errorf("no source line") }
-func (f c10ObjFile) Close() error                                 { return nil }
+func (f c10ObjFile) Name() string                        { return f.name }
+func (f c10ObjFile) ObjAddr(addr uint64) (uint64, error) { return addr, nil }
+func (f c10ObjFile) BuildID() string                     { return "" }
+func (f c10ObjFile) SourceLine(uint64) ([]plugin.Frame, error) {
+	return nil, fmt.Errorf("no source line")
+}
+func (f c10ObjFile) Close() error { return nil }
 func (f c10ObjFile) Symbols(r *regexp.Regexp, addr uint64) ([]*plugin.Sym, error) {
 	var out []*plugin.Sym
 	for i, fn := range f.p.Function {
@@ -187,7 +189,11 @@ func c10Get(h map[string]http.Handler, target string) (r c10Resp) {
 	if pn := c10Safely(func() { hd.ServeHTTP(rec, httptest.NewRequest("GET", target, nil)) }); pn != "" {
 		return c10Resp{Status: -2, Body: "panic: " + pn}
 	}
-	return c10Resp{Status: rec.Code, Body: rec.Body.String()}
+	body := rec.Body.String()
+	if c10TreesDir != "" {
+		body = strings.ReplaceAll(body, c10TreesDir, "<TREES>")
+	}
+	return c10Resp{Status: rec.Code, Body: body}
 }
 
 func c10RespDiff(a, b c10Resp) string {
@@ -212,23 +218,6 @@ func c10RespDiff(a, b c10Resp) string {
 
 func (r c10Resp) bag() string { return fmt.Sprintf("%d/%s", r.Status, c10TokenBag(r.Body)) }
 
-// c10WebStable: a response differing from the reference counts only if it is not explained by run-to-run
-// nondeterminism of the page itself (C08). R0 holds the answers of three fresh servers taken BEFORE any
-// other request was served in this process (later fresh servers would share leaked process state):
-// a response whose token bag is in R0 is fine; if the pristine answers themselves disagree the page is
-// incomparable; otherwise the difference is a verdict.
-func c10WebStable(c *Ctx, R0 map[string]bool, got c10Resp, name string) bool {
-	if R0[got.bag()] {
-		c.Res.Hit("C08-run-to-run-order-only-difference:web-" + name)
-		return false
-	}
-	if len(R0) > 1 {
-		c.Res.Hit("C08-run-to-run-nondeterministic-output:web-" + name)
-		return false
-	}
-	return true
-}
-
 func c10Endpoint(path string) string {
 	switch path {
 	case "/":
@@ -239,20 +228,99 @@ func c10Endpoint(path string) string {
 	return ""
 }
 
-// c10WebCase runs in a process of its own (see c10WebChild): the FIRST thing the process does with
-// the driver is to serve r alone on a fresh server — the reference.
-func c10WebCase(c *Ctx, cs *c10Case) {
-	b, err := hex.DecodeString(cs.Profile)
-	if err != nil {
-		c.Res.HarnessError = err.Error()
+func c10EndpointOf(target string) string {
+	if u, err := url.Parse(target); err == nil {
+		if n := c10Endpoint(u.Path); n != "" {
+			return n
+		}
+	}
+	return "other"
+}
+
+// c10WebEnv: what a web child process works with. References ALWAYS come from another process (phase
+// "ref"): a process-wide table filled in order of first use (colour numbers, memo tables, lazily built
+// template sets) would make a reference taken earlier in the same process agree with everything that
+// follows it.
+type c10WebEnv struct {
+	c     *Ctx
+	cs    *c10Case
+	parse [3]func() *profile.Profile // A (the case's profile), B (small), C (large)
+	flags map[string]string
+	refs  map[string]map[string]bool // "<profile index>|<url>" → token bags of fresh-process answers
+	notes []string
+}
+
+func (e *c10WebEnv) key(pi int, u string) string { return fmt.Sprintf("%d|%s", pi, u) }
+
+// check compares an answer with the fresh-process references of (profile pi, url u).
+func (e *c10WebEnv) check(pi int, u string, got c10Resp, sig, what string) {
+	set := e.refs[e.key(pi, u)]
+	if len(set) == 0 {
+		e.c.Res.HarnessError = "no fresh-process reference for " + e.key(pi, u)
 		return
 	}
-	parse := func() *profile.Profile {
-		p, err := profile.ParseUncompressed(b)
-		if err != nil {
-			panic(err)
+	if set[got.bag()] {
+		return
+	}
+	name := c10EndpointOf(u)
+	if len(set) > 1 {
+		e.c.Res.Hit("C08-run-to-run-nondeterministic-output:web-" + name) // the fresh answers themselves disagree
+		return
+	}
+	body := got.Body
+	if len(body) > 160 {
+		body = body[:160]
+	}
+	e.c.Violation(sig+"/"+name, fmt.Sprintf("%s: the response to %s (profile %c) is not the response of a fresh process serving only that request (status %d, %d bytes, starts %q)",
+		what, u, 'A'+rune(pi), got.Status, len(got.Body), body), e.cs)
+}
+
+func (e *c10WebEnv) server(pi int) map[string]http.Handler {
+	h, _, err := c10Server(e.parse[pi](), e.flags)
+	if err != nil {
+		e.c.Disagree("C10/harness/web-server", "cannot start the web UI through the plug-in API: "+err.Error(), "correspondence harness ~ web handlers", e.cs)
+		return nil
+	}
+	return h
+}
+
+func (e *c10WebEnv) stallURLs() []string {
+	urls := []string{e.cs.Request}
+	seen := map[string]bool{e.cs.Request: true}
+	for _, o := range e.cs.Others {
+		if len(urls) < 4 && !seen[o] && c10EndpointOf(o) != "other" {
+			seen[o] = true
+			urls = append(urls, o)
 		}
-		return p
+	}
+	return urls
+}
+
+var c10TreesDir string // scratch directory of the source trees; replaced by <TREES> in every observed body
+
+// c10WebCase runs ONE phase of a web case in a process of its own (see c10WebRun).
+func c10WebCase(c *Ctx, cs *c10Case) {
+	e := &c10WebEnv{c: c, cs: cs, refs: map[string]map[string]bool{}}
+	for i, hx := range []string{cs.Profile, cs.Profile2, cs.Profile3} {
+		if hx == "" {
+			hx = cs.Profile
+		}
+		b, err := hex.DecodeString(hx)
+		if err != nil {
+			c.Res.HarnessError = err.Error()
+			return
+		}
+		if _, err := profile.ParseUncompressed(b); err != nil {
+			c.Res.HarnessError = err.Error()
+			return
+		}
+		e.parse[i] = func() *profile.Profile { p, _ := profile.ParseUncompressed(b); return p }
+	}
+	for k, vs := range cs.Refs {
+		e.refs[k] = map[string]bool{}
+		for _, v := range vs {
+			e.refs[k][v] = true
+		}
 	}
 	if os.Getenv("XDG_CONFIG_HOME") == "" {
 		d, _ := os.MkdirTemp("", "c10cfg-")
@@ -263,60 +331,83 @@ func c10WebCase(c *Ctx, cs *c10Case) {
 	// server of the case); @TREES@ is the scratch directory holding the case's source trees
 	trees, _ := os.MkdirTemp("", "c10trees-")
 	defer os.RemoveAll(trees)
-	for name, text := range c10SourceTrees(parse()) {
+	c10TreesDir = trees
+	for name, text := range c10SourceTrees(e.parse[0]()) {
 		f := filepath.Join(trees, name)
 		os.MkdirAll(filepath.Dir(f), 0o755)
 		os.WriteFile(f, []byte(text), 0o644)
 	}
-	flags := map[string]string{}
+	e.flags = map[string]string{}
 	for k, v := range cs.Flags {
-		flags[k] = strings.ReplaceAll(v, "@TREES@", trees)
-		c.Res.Hit("web-flag:" + k)
+		e.flags[k] = strings.ReplaceAll(v, "@TREES@", trees)
 	}
-	h0, _, err := c10Server(parse(), flags)
-	if err != nil {
-		c.Disagree("C10/harness/web-server", "cannot start the web UI through the plug-in API: "+err.Error(), "correspondence harness ~ web handlers", cs)
+	switch cs.Phase {
+	case "ref":
+		c10WebRefPhase(e)
+		c.Res.Notes = append(c.Res.Notes, e.notes...)
 		return
-	}
-	ref := c10Get(h0, cs.Request)
-	dl0 := c10Get(h0, "/download")
-	R0 := map[string]bool{ref.bag(): true}
-	for i := 0; i < 4; i++ {
-		if h, _, err := c10Server(parse(), flags); err == nil {
-			R0[c10Get(h, cs.Request).bag()] = true
-		}
-	}
-	// references for the stall phase: r and up to three other view URLs, each from fresh servers taken now
-	stallURLs := []string{cs.Request}
-	stallRefs := map[string]map[string]bool{cs.Request: R0}
-	if cs.Phase == "" || cs.Phase == "stall" {
-		for _, o := range cs.Others {
-			if len(stallURLs) >= 4 || stallRefs[o] != nil {
-				continue
+	case "seq":
+		c10WebSeqPhase(e)
+	case "conc":
+		c10WebConcPhase(e)
+	case "stall":
+		if h := e.server(0); h != nil {
+			for _, o := range cs.Others {
+				c10Get(h, o)
 			}
-			set := map[string]bool{}
-			for i := 0; i < 3; i++ {
-				if h, _, err := c10Server(parse(), flags); err == nil {
-					set[c10Get(h, o).bag()] = true
-				}
-			}
-			stallURLs = append(stallURLs, o)
-			stallRefs[o] = set
+			c10WebStallPhase(c, cs, h, e.stallURLs(), e)
 		}
+	case "multi":
+		c10WebMultiPhase(e)
+	default:
+		c.Res.HarnessError = "web case without a phase reached a child process"
 	}
+	c.Res.Hit("web-phase:" + cs.Phase)
+}
+
+// phase "ref": the fresh-process answers. Profile A first (pristine process), each URL on servers that
+// have served nothing else; then B and C, each read before the next server is created.
+func c10WebRefPhase(e *c10WebEnv) {
+	c, cs := e.c, e.cs
+	add := func(pi int, u string, n int) c10Resp {
+		var first c10Resp
+		for i := 0; i < n; i++ {
+			h := e.server(pi)
+			if h == nil {
+				return first
+			}
+			r := c10Get(h, u)
+			if i == 0 {
+				first = r
+			}
+			e.notes = append(e.notes, "ref\t"+e.key(pi, u)+"\t"+r.bag())
+		}
+		return first
+	}
+	ref := add(0, cs.Request, 3)
 	c.Res.Hit(fmt.Sprintf("web-ref-status:%d", ref.Status))
-	ru, _ := url.Parse(cs.Request)
-	name := "other"
-	if ru != nil {
-		name = c10Endpoint(ru.Path)
+	for _, u := range e.stallURLs()[1:] {
+		add(0, u, 2)
+	}
+	if h := e.server(0); h != nil {
+		dl := c10Get(h, "/download")
+		if p, err := profile.Parse(bytes.NewReader([]byte(dl.Body))); err == nil {
+			e.notes = append(e.notes, "ref\t"+e.key(0, "/download")+"\t"+c10TokenBag(Canon(p)))
+		} else {
+			e.notes = append(e.notes, "ref\t"+e.key(0, "/download")+"\tunparsable")
+		}
+	}
+	for _, f := range sortedKeys(cs.Flags) {
+		c.Res.Hit("web-flag:" + f)
 	}
 	// model: a request whose URL parameters the option table rejects is a 400
-	if ru != nil && name != "" && c.Drv != nil {
+	name := c10EndpointOf(cs.Request)
+	if ru, err := url.Parse(cs.Request); err == nil && name != "other" && c.Drv != nil {
 		q := ru.Query()
 		var ps, vals []string
 		n := 0
-		for k, vs := range q {
-			if len(vs) > 0 {
+		for _, k := range sortedKeys(q) {
+			if vs := q[k]; len(vs) > 0 {
 				ps = append(ps, hexTok([]byte(k))+" "+hexTok([]byte(vs[0])))
 				vals = append(vals, vs[0])
 				n++
@@ -334,65 +425,113 @@ func c10WebCase(c *Ctx, cs *c10Case) {
 			c.Res.Hit("web-model-bad-request")
 		}
 	}
-	// a second server on a second decode of the same bytes: the others, then r
-	h1, _, err := c10Server(parse(), flags)
-	if err != nil {
-		c.Disagree("C10/harness/web-server", "cannot start a second web UI: "+err.Error(), "correspondence harness ~ web handlers", cs)
+	add(1, cs.Request, 2)
+	add(2, cs.Request, 2)
+}
+
+func (e *c10WebEnv) checkDownload(h map[string]http.Handler) {
+	dl := c10Get(h, "/download")
+	got := "unparsable"
+	if p, err := profile.Parse(bytes.NewReader([]byte(dl.Body))); err == nil {
+		got = c10TokenBag(Canon(p))
+	}
+	if set := e.refs[e.key(0, "/download")]; len(set) > 0 && !set[got] {
+		e.c.Violation("C10/web/download-changed", "/download after the requests differs from /download of a fresh process: the loaded profile was modified", e.cs)
+	}
+}
+
+// phase "seq": a fresh process serves the other requests first and r — never served here before — last.
+func c10WebSeqPhase(e *c10WebEnv) {
+	h := e.server(0)
+	if h == nil {
 		return
 	}
-	for _, o := range cs.Others {
-		rr := c10Get(h1, o)
-		c.Res.Hit(fmt.Sprintf("web-other-status:%d", rr.Status))
+	for _, o := range e.cs.Others {
+		rr := c10Get(h, o)
+		e.c.Res.Hit(fmt.Sprintf("web-other-status:%d", rr.Status))
 	}
-	seq := ref
-	if cs.Phase == "" || cs.Phase == "seq" {
-		seq = c10Get(h1, cs.Request)
+	e.check(0, e.cs.Request, c10Get(h, e.cs.Request), "C10/web/sequence-dependent", fmt.Sprintf("after %d other requests", len(e.cs.Others)))
+	e.check(0, e.cs.Request, c10Get(h, e.cs.Request), "C10/web/sequence-dependent", "asked a second time")
+	e.checkDownload(h)
+	e.c.Res.Hit("web-cases")
+}
+
+// phase "conc": the VERY FIRST page renders of the process are a burst of simultaneous requests (lazy
+// process-wide initialisation must not be observable), then r alone, then r in the middle of the others.
+func c10WebConcPhase(e *c10WebEnv) {
+	h := e.server(0)
+	if h == nil {
+		return
 	}
-	if seq != ref && c10WebStable(c, R0, seq, name) {
-		c.Violation("C10/web/sequence-dependent/"+name, fmt.Sprintf("response to %s after %d other requests differs from the response of a fresh server: %s",
-			cs.Request, len(cs.Others), c10RespDiff(seq, ref)), cs)
+	cs := e.cs
+	urls := e.stallURLs()
+	burst := append([]string{cs.Request, cs.Request}, urls...)
+	for i := 0; len(burst) < 12; i++ {
+		burst = append(burst, urls[i%len(urls)])
 	}
-	// concurrently: three copies of r in the middle of the others, twice
-	for round := 0; round < 2 && (cs.Phase == "" || cs.Phase == "conc"); round++ {
+	got := make([]c10Resp, len(burst))
+	start := make(chan struct{})
+	var wg sync.WaitGroup
+	for i, u := range burst {
+		wg.Add(1)
+		go func(i int, u string) { defer wg.Done(); <-start; got[i] = c10Get(h, u) }(i, u)
+	}
+	close(start)
+	wg.Wait()
+	for i, u := range burst {
+		e.check(0, u, got[i], "C10/web/first-burst-dependent", fmt.Sprintf("served as one of the first %d simultaneous requests of a fresh process", len(burst)))
+	}
+	e.check(0, cs.Request, c10Get(h, cs.Request), "C10/web/first-burst-dependent", "served alone after the process started with a burst of simultaneous requests")
+	for round := 0; round < 2; round++ {
 		var wg sync.WaitGroup
-		got := make([]c10Resp, 3)
-		for i := range got {
+		rs := make([]c10Resp, 3)
+		for i := range rs {
 			wg.Add(1)
-			go func(i int) { defer wg.Done(); got[i] = c10Get(h1, cs.Request) }(i)
+			go func(i int) { defer wg.Done(); rs[i] = c10Get(h, cs.Request) }(i)
 		}
 		for _, o := range cs.Others {
 			wg.Add(1)
-			go func(o string) { defer wg.Done(); c10Get(h1, o) }(o)
+			go func(o string) { defer wg.Done(); c10Get(h, o) }(o)
 		}
 		wg.Wait()
-		for _, g := range got {
-			if g != ref && c10WebStable(c, R0, g, name) {
-				c.Violation("C10/web/concurrency-dependent/"+name, fmt.Sprintf("response to %s served concurrently with %d other requests differs from the response of a fresh server: %s",
-					cs.Request, len(cs.Others), c10RespDiff(g, ref)), cs)
-				break
-			}
+		for _, g := range rs {
+			e.check(0, cs.Request, g, "C10/web/concurrency-dependent", fmt.Sprintf("served concurrently with %d other requests", len(cs.Others)))
 		}
 	}
-	if cs.Phase == "" || cs.Phase == "stall" {
-		c10WebStallPhase(c, cs, h1, stallURLs, stallRefs)
-	}
-	// the first server again (it has seen nothing but r): state shared between servers of one process
-	again := c10Get(h0, cs.Request)
-	if again != ref && c10WebStable(c, R0, again, name) {
-		c.Violation("C10/web/process-state-dependent/"+name, "the same request on the first server differs after another server of the process served other requests: "+c10RespDiff(again, ref), cs)
-	}
-	// /download still serves the profile that was loaded
-	dl1 := c10Get(h1, "/download")
-	p0, e0 := profile.Parse(bytes.NewReader([]byte(dl0.Body)))
-	p1, e1 := profile.Parse(bytes.NewReader([]byte(dl1.Body)))
-	if e0 != nil || e1 != nil {
-		c.Violation("C10/web/download-unparsable", fmt.Sprintf("/download does not parse: %v / %v", e0, e1), cs)
-	} else if Canon(p0) != Canon(p1) {
-		c.Violation("C10/web/download-changed", "/download after the requests differs from /download of a fresh server: the loaded profile was modified", cs)
-	}
-	c.Res.Hit("web-cases")
+	e.checkDownload(h)
 }
 
+// phase "multi": several sessions over DIFFERENT profiles alive in one process; every answer of every
+// session must be the fresh-process answer for that session's profile.
+func c10WebMultiPhase(e *c10WebEnv) {
+	r := e.cs.Request
+	const sig = "C10/web/other-session-dependent"
+	A := e.server(0)
+	if A == nil {
+		return
+	}
+	e.check(0, r, c10Get(A, r), sig, "session A alone")
+	B := e.server(1)
+	if B == nil {
+		return
+	}
+	e.check(0, r, c10Get(A, r), sig, "session A after session B (smaller profile) was started in the same process")
+	e.check(1, r, c10Get(B, r), sig, "session B next to session A")
+	C := e.server(2)
+	if C == nil {
+		return
+	}
+	e.check(0, r, c10Get(A, r), sig, "session A after sessions B and C (larger profile) were started")
+	e.check(1, r, c10Get(B, r), sig, "session B after session C was started")
+	e.check(2, r, c10Get(C, r), sig, "session C next to sessions A and B")
+	for i, o := range e.cs.Others { // interleaved traffic
+		c10Get([]map[string]http.Handler{A, B, C}[i%3], o)
+	}
+	e.check(0, r, c10Get(A, r), sig, "session A after interleaved requests to A, B and C")
+	e.check(1, r, c10Get(B, r), sig, "session B after interleaved requests to A, B and C")
+	e.check(2, r, c10Get(C, r), sig, "session C after interleaved requests to A, B and C")
+	e.checkDownload(A)
+}
 
 // ---- stall phase: responses still being WRITTEN while other requests are rendered ----
 
@@ -436,7 +575,7 @@ func (w *c10StallWriter) Write(p []byte) (int, error) {
 	return len(p), nil
 }
 
-func c10WebStallPhase(c *Ctx, cs *c10Case, h map[string]http.Handler, urls []string, refs map[string]map[string]bool) {
+func c10WebStallPhase(c *Ctx, cs *c10Case, h map[string]http.Handler, urls []string, e *c10WebEnv) {
 	procsList := []int{1, runtime.NumCPU()}
 	for _, procs := range procsList {
 		old := runtime.GOMAXPROCS(procs)
@@ -493,27 +632,14 @@ func c10WebStallPhase(c *Ctx, cs *c10Case, h map[string]http.Handler, urls []str
 		runtime.GOMAXPROCS(old)
 		c.Res.Hit(fmt.Sprintf("web-stalled-responses(GOMAXPROCS=%d)", procs))
 		for _, f := range fl {
-			got := c10Resp{Status: f.w.code, Body: f.w.body.String()}
+			got := c10Resp{Status: f.w.code, Body: strings.ReplaceAll(f.w.body.String(), c10TreesDir, "<TREES>")}
 			if f.pn != "" {
 				got = c10Resp{Status: -2, Body: "panic: " + f.pn}
 			}
 			if len(got.Body) > 64<<10 {
 				c.Res.Hit("web-stalled-body>64KiB")
 			}
-			set := refs[f.url]
-			name := "other"
-			if pu, err := url.Parse(f.url); err == nil {
-				name = c10Endpoint(pu.Path)
-			}
-			if set[got.bag()] {
-				continue
-			}
-			if len(set) > 1 {
-				c.Res.Hit("C08-run-to-run-nondeterministic-output:web-" + name)
-				continue
-			}
-			c.Violation("C10/web/overlap-dependent/"+name, fmt.Sprintf("the response to %s, still being written (slow client) while %d other requests were rendered with GOMAXPROCS=%d, is not that URL's fresh-server response (%d bytes received; first 120: %q)",
-				f.url, 2*len(traffic), procs, len(got.Body), c10Trunc(got.Body[:min(len(got.Body), 120)])), cs)
+			e.check(0, f.url, got, "C10/web/overlap-dependent", fmt.Sprintf("still being written (slow client) while %d other requests were rendered with GOMAXPROCS=%d", 2*len(traffic), procs))
 		}
 	}
 }
